@@ -2,7 +2,7 @@
    The OCaml driver (ocaml/modelrun.ml) and the in-Coq cross-check both go through dispatch. *)
 From RcProxy Require Import Base.Bytes Base.Sx Base.Dec Gen.Generated Spec.KeySlot Model.Crc16
   Spec.RespGrammar Spec.SplitSpec Spec.CommandSpec
-  Model.RespBuf Model.Commands Model.ClientCodec Model.ClientFeed Model.ServerCodec.
+  Spec.RouteSpec Model.RespBuf Model.Commands Model.ClientCodec Model.ClientFeed Model.ServerCodec Model.Route.
 
 Definition e_hash (a : sx) : sx :=
   match a with SB k => sN (Hash k) | _ => bad end.
@@ -115,6 +115,64 @@ Definition e_merge (a : sx) : sx :=
   | SL [SN limit; SB req; SL replies] =>
       match decode limit req, map_opt (fun r => match r with SL [SN s; SB b] => Some (Z.to_N s, b) | _ => None end) replies with
       | DOk m _, Some rs => SL (run_merge limit (smsg_of m (groups_of_cmsg m [])) rs false)
+      | _, _ => bad
+      end
+  | _ => bad
+  end.
+
+(* ---- route / handshake ----
+   input (disable ty master ((addr pool ban liftbefore) ...) (k1 k2 ...)) where k_n = rand.Intn(n) *)
+Definition get_replica (s : sx) : option replica :=
+  match s with
+  | SL [SB a; SN p; SN b; SN l] =>
+      Some {| r_addr := a; r_pool := negb (Z.eqb p 0); r_ban := negb (Z.eqb b 0); r_lift_before_now := negb (Z.eqb l 0) |}
+  | _ => None
+  end.
+
+Definition e_route (a : sx) : sx :=
+  match a with
+  | SL [SN disable; SN ty; SB master; SL slaves; ks] =>
+      match map_opt get_replica slaves, get_zl ks with
+      | Some sl, Some kl =>
+          let rnd (n : nat) : nat := Z.to_nat (nth (n - 1) kl 0%Z) in
+          let '(addr, is_slave) := route (negb (Z.eqb disable 0)) (Z.to_N ty) master sl rnd in
+          SL [SB addr; sbool is_slave;
+              SL (map (fun r => sbool (r_ban r)) (if (negb (Z.eqb disable 0) || (ReqWriteCmdStart <? Z.to_N ty)
+                                                      || N.eqb (Z.to_N ty) ReqHscan || N.eqb (Z.to_N ty) ReqSscan || N.eqb (Z.to_N ty) ReqZscan)%bool
+                                                  then sl else route_clears sl))]
+      | _, _ => bad
+      end
+  | _ => bad
+  end.
+
+Definition e_onsopened (a : sx) : sx :=
+  match a with
+  | SL [SB pw; SN slave] => let '(out, step) := on_s_opened pw (negb (Z.eqb slave 0)) in SL [SB out; SN step]
+  | _ => bad
+  end.
+
+(* o_route: C04 (member of the set, by role) and C20 (the k-th healthy replica) on the route suite *)
+Definition o_route (a : sx) : sx :=
+  match a with
+  | SL [SL [SN disable; SN ty; SB master; SL slaves; ks]; SL [SB addr; SN is_slave; _]] =>
+      match map_opt get_replica slaves, get_zl ks with
+      | Some sl, Some kl =>
+          let t := Z.to_N ty in
+          let name_ro := existsb (fun p => N.eqb (snd p) t && mem (fst p) readonly_commands) CommandStr2Type in
+          let must_master := (negb (Z.eqb disable 0) || negb name_ro
+                              || existsb (fun p => N.eqb (snd p) t && (mem (fst p) master_only_reads || mem (fst p) scripts)) CommandStr2Type)%bool in
+          let healthy := filter (fun r => r_pool r && negb (r_ban r && r_lift_before_now r)) sl in
+          if must_master then
+            (if (beqb addr master && Z.eqb is_slave 0)%bool then ok else viol "write-scan-or-script-not-routed-to-master" [SB addr])
+          else match healthy with
+               | [] => if (beqb addr master && Z.eqb is_slave 0)%bool then ok else viol "read-without-healthy-replica-not-routed-to-master" [SB addr]
+               | _ =>
+                   let k := Z.to_nat (nth (length healthy - 1) kl 0%Z) in
+                   let want := r_addr (nth k healthy {| r_addr := []; r_pool := false; r_ban := false; r_lift_before_now := false |}) in
+                   if negb (existsb (fun r => beqb (r_addr r) addr) healthy) then viol "read-routed-outside-the-healthy-replicas" [SB addr]
+                   else if negb (beqb addr want) then viol "read-not-routed-to-the-kth-healthy-replica" [SB want; SB addr]
+                   else ok
+               end
       | _, _ => bad
       end
   | _ => bad
@@ -423,7 +481,10 @@ Definition entries : list (bytes * (sx -> sx)) :=
     (bs "merge", e_merge);
     (bs "o_reqs", o_reqs);
     (bs "o_feed", o_feed);
-    (bs "o_merge", o_merge) ].
+    (bs "o_merge", o_merge);
+    (bs "route", e_route);
+    (bs "onsopened", e_onsopened);
+    (bs "o_route", o_route) ].
 
 Definition dispatch (name : bytes) (a : sx) : sx :=
   match assoc_b name entries with
